@@ -50,6 +50,21 @@ CHECKS = {
         "note": NOTE,
         "technique": "static analysis: call-graph reachability (may-call) from the loader, dominance / value-flow in the background flush closure",
     },
+    "C10": {
+        "text": "Decides necessary conditions for all paths: only writes with an exact expected sequence are forwarded to the replicator, after the sender and staleness "
+                "checks; the coordinator pins the replicated transaction to the sequence its own append got; catch-up re-applies events with exact stream versions "
+                "from the replica's own next sequence; ConfirmTransaction compares length, sequences and event ids before stamping counts; two buffered writes are "
+                "the same write only if their transaction ids are equal. Does not decide agreement under fault schedules.",
+        "note": NOTE,
+        "technique": "static analysis: variant-edge dominance (match arms), value-flow of the replicated transaction, predicate shape of key_eq on MIR",
+    },
+    "C11": {
+        "text": "Decides for all paths: transaction::run returns Ok only under confirmed_replicas.len() >= rf/2+1, with replicas counted on their Ok arm only and the "
+                "coordinator counted once; the client's Ok reply is dominated by the Ok arm of set_confirmations_with_retry, which itself returns Ok only on the Ok "
+                "arm of Database::set_confirmations; the count written is confirmed_replicas.len(). Does not decide 'never hidden by any later history'.",
+        "note": NOTE,
+        "technique": "static analysis: quorum gate dominance, variant-edge dominance across await points, value-flow on MIR",
+    },
     "C12": {
         "text": "Decides for all paths: OrderedQueue::insert never mutates the map on a path that returns Err, rejects keys below next, pop removes exactly map[next]; "
                 "a function moving `next` purges smaller keys (KNOWN-FINDING D11: progress_to does not); buffer_write keys by the assigned sequence and hands back "
